@@ -19,7 +19,8 @@ use vcommon::result::{is_thorough, EngineResult};
 
 const K1: (&str, &str) = ("11111111-1111-1111-1111-111111111111", "1111111111111111111111111111111111111111111111111111111111111111");
 const K2: (&str, &str) = ("22222222-2222-2222-2222-222222222222", "2222222222222222222222222222222222222222222222222222222222222222");
-const K3: (&str, &str) = ("33333333-3333-3333-3333-333333333333", "3333333333333333333333333333333333333333333333333333333333333333");
+// a 384-bit secret: the MAC is under the whole secret of the named key, whatever its size
+const K3: (&str, &str) = ("33333333-3333-3333-3333-333333333333", "333333333333333333333333333333333333333333333333333333333333333344444444444444444444444444444444");
 
 struct Parked {
     seq: u64,
@@ -53,6 +54,7 @@ enum Th {
     K,  // key keeper: update_key(K2); clear_key(); update_key(K3)
     S1, // proxied request (task not owned by the harness)
     S1b,
+    S1k, // proxied request on a kept-alive connection that already served a request under K1 before the schedule starts
     S2, // the agent's own goal-state call
     S3, // the agent's own IMDS call
 }
@@ -84,6 +86,18 @@ fn run_schedule_r(w: &World, threads: &[Th], prefix: &[usize], sport: &mut u16, 
     PARKED.lock().unwrap().clear();
     w.set_key(Some(K1));
     let kk = w.shared.get_key_keeper_shared_state();
+    // kept-alive connections that have already served a request (signed under K1) when the schedule starts
+    let mut warm: Vec<vcommon::rawhttp::Client> = Vec::new();
+    for _ in threads.iter().filter(|t| **t == Th::S1k) {
+        *sport = if *sport >= 49000 { 48000 } else { *sport + 1 };
+        let rec = AuditRec::to(WS, 0, root_pid, true);
+        let mut c = w.connect(Some(*sport), Some(&rec)).unwrap_or_else(|e| vcommon::result::machinery(&format!("connect: {e}")));
+        let r = c.send(&build_request("GET", "/warm", &[("Host", b"h")], None, None)).map_err(|e| e.to_string()).and_then(|_| c.read_response(false, Duration::from_secs(20)).map(|m| m.status()));
+        if r != Ok(200) {
+            vcommon::result::machinery(&format!("warm-up request of a kept-alive connection: {:?}", r));
+        }
+        warm.push(c);
+    }
     let cur_ws = w.hosts.ws.cursor();
     let cur_imds = w.hosts.imds.cursor();
     ACTIVE.store(true, Ordering::SeqCst);
@@ -119,14 +133,22 @@ fn run_schedule_r(w: &World, threads: &[Th], prefix: &[usize], sport: &mut u16, 
                 task_of.insert(h.id().to_string(), Th::S3);
                 handles.push((Th::S3, h));
             }
-            Th::S1 | Th::S1b => {
-                *sport = if *sport >= 49000 { 48000 } else { *sport + 1 };
-                let rec = AuditRec::to(WS, 0, root_pid, true);
-                let mut c = w.connect(Some(*sport), Some(&rec)).unwrap_or_else(|e| vcommon::result::machinery(&format!("connect: {e}")));
+            Th::S1 | Th::S1b | Th::S1k => {
+                let mut c = if *th == Th::S1k {
+                    warm.pop().unwrap()
+                } else {
+                    *sport = if *sport >= 49000 { 48000 } else { *sport + 1 };
+                    let rec = AuditRec::to(WS, 0, root_pid, true);
+                    w.connect(Some(*sport), Some(&rec)).unwrap_or_else(|e| vcommon::result::machinery(&format!("connect: {e}")))
+                };
                 let done = Arc::new(AtomicBool::new(false));
                 let out = Arc::new(Mutex::new(None));
                 let (d2, o2) = (done.clone(), out.clone());
-                let target = if *th == Th::S1 { "/s1" } else { "/s1b" };
+                let target = match th {
+                    Th::S1 => "/s1",
+                    Th::S1b => "/s1b",
+                    _ => "/s1k",
+                };
                 std::thread::spawn(move || {
                     let r = c.send(&build_request("GET", target, &[("Host", b"h")], None, None)).map_err(|e| e.to_string()).and_then(|_| c.read_response(false, Duration::from_secs(20)).map(|m| m.status()));
                     *o2.lock().unwrap() = Some(r);
@@ -143,7 +165,7 @@ fn run_schedule_r(w: &World, threads: &[Th], prefix: &[usize], sport: &mut u16, 
     }
     // anonymous parked ops are attributed by the order in which their tasks first appeared
     let mut anon_tasks: Vec<String> = Vec::new();
-    let anon_threads: Vec<Th> = threads.iter().filter(|t| matches!(t, Th::S1 | Th::S1b)).cloned().collect();
+    let anon_threads: Vec<Th> = threads.iter().filter(|t| matches!(t, Th::S1 | Th::S1b | Th::S1k)).cloned().collect();
     let mut owner = |p: &Parked, anon_tasks: &mut Vec<String>| -> Th {
         let id = p.task.clone().unwrap_or_default();
         if let Some(t) = task_of.get(&id) {
@@ -236,7 +258,7 @@ fn main() {
     let mut sport = 48000u16;
 
     // (threads, number of own host calls the mock rejects with 403 first)
-    let mut families: Vec<(Vec<Th>, i64)> = vec![(vec![Th::K, Th::S1], 0), (vec![Th::K, Th::S2], 0), (vec![Th::K, Th::S3], 0), (vec![Th::K, Th::S1, Th::S2], 0), (vec![Th::K, Th::S1, Th::S1b], 0), (vec![Th::K, Th::S2], 1), (vec![Th::K, Th::S3], 1)];
+    let mut families: Vec<(Vec<Th>, i64)> = vec![(vec![Th::K, Th::S1], 0), (vec![Th::K, Th::S2], 0), (vec![Th::K, Th::S3], 0), (vec![Th::K, Th::S1, Th::S2], 0), (vec![Th::K, Th::S1, Th::S1b], 0), (vec![Th::K, Th::S2], 1), (vec![Th::K, Th::S3], 1), (vec![Th::K, Th::S1k], 0), (vec![Th::K, Th::S1k, Th::S1], 0)];
     if thorough {
         families.push((vec![Th::K, Th::S1, Th::S2, Th::S3], 0));
         families.push((vec![Th::K, Th::S1, Th::S1b, Th::S2], 0));
@@ -245,7 +267,7 @@ fn main() {
     }
     if let Ok(path) = std::env::var("VERIF_REPLAY") {
         let doc: Value = serde_json::from_str(&std::fs::read_to_string(path).unwrap()).unwrap();
-        let fam: Vec<Th> = doc["case"]["threads"].as_array().unwrap().iter().map(|t| match t.as_str().unwrap() { "K" => Th::K, "S1" => Th::S1, "S1b" => Th::S1b, "S2" => Th::S2, _ => Th::S3 }).collect();
+        let fam: Vec<Th> = doc["case"]["threads"].as_array().unwrap().iter().map(|t| match t.as_str().unwrap() { "K" => Th::K, "S1" => Th::S1, "S1b" => Th::S1b, "S1k" => Th::S1k, "S2" => Th::S2, _ => Th::S3 }).collect();
         let prefix: Vec<usize> = doc["case"]["choices"].as_array().unwrap().iter().map(|c| c.as_u64().unwrap() as usize).collect();
         let reject = doc["case"]["host_rejects_first"].as_i64().unwrap_or(0);
         let e = run_schedule_r(&w, &fam, &prefix, &mut sport, root_pid, reject);
@@ -361,7 +383,7 @@ fn main() {
     res.cov("schedules_per_family", json!(per_family));
     res.cov("distinct_id_secret_pairings_observed", json!(pairings));
     res.cov("exhaustive", true);
-    res.cov("rule", "every interleaving of the key-actor operations of: K = [update_key(K2), clear_key, update_key(K3)] (starting from K1 latched), S1 = a proxied request (real listener, real sockets), S2 = WireServerClient::get_goalstate, S3 = ImdsClient::get_imds_instance_info (thorough: also all four together and two proxied requests); also with the mock rejecting the first own host call(s) with 403 (retry paths); each operation parks at the guarded scheduling point in KeyKeeperSharedState::get_key/set_key and is released one at a time; states = complete schedules, transitions = released operations; every request the mock host receives is verified from its raw bytes under the key registered for the announced id; plus a SAMPLED family: 4 free-running threads sign 30000 (120000) requests each through hyper_client::build_request with three alternating key snapshots".to_string());
+    res.cov("rule", "every interleaving of the key-actor operations of: K = [update_key(K2), clear_key, update_key(K3)] (starting from K1 latched), S1 = a proxied request (real listener, real sockets; S1k: on a kept-alive connection that already served a request under K1), S2 = WireServerClient::get_goalstate, S3 = ImdsClient::get_imds_instance_info (thorough: also all four together and two proxied requests); also with the mock rejecting the first own host call(s) with 403 (retry paths); each operation parks at the guarded scheduling point in KeyKeeperSharedState::get_key/set_key and is released one at a time; states = complete schedules, transitions = released operations; every request the mock host receives is verified from its raw bytes under the key registered for the announced id; plus a SAMPLED family: 4 free-running threads sign 30000 (120000) requests each through hyper_client::build_request with three alternating key snapshots".to_string());
     res.assume("all cross-task state of the key lives in the key-keeper actor, whose handlers contain no await: the order of actor operations determines the behaviour");
     std::process::exit(res.finish());
 }
